@@ -40,6 +40,23 @@ def mutants(ctx: Ctx, p: bytes, full: bool):
             q[rng.randrange(n)] = rng.randrange(256)
         if bytes(q) != p:
             out.append(("multi", 0, 0, bytes(q)))
+    # the length field set to small values (0..8) and to the values around the real length
+    for v in list(range(0, 9)) + [n - 1, n + 1, n - 16, n + 16, 56]:
+        if 0 <= v < 65536 and v != n:
+            q = bytearray(p)
+            q[4:6] = v.to_bytes(2, "little")
+            out.append(("multi", 4, v & 0xFF, bytes(q)))
+    # whole fields blanked (zero-filled / 0xFF-filled): the signature, the header tail, the payload - alone and with one more payload bit altered
+    for a, b in ((n - 16, n), (6, 40), (40, n - 16), (20, 28), (0, n)):
+        for fill in (0x00, 0xFF):
+            q = bytearray(p)
+            q[a:b] = bytes([fill]) * (b - a)
+            if bytes(q) != p:
+                out.append(("multi", a, fill, bytes(q)))
+                if b - a < n and n - 16 > 40:
+                    q2 = bytearray(q)
+                    q2[40 + rng.randrange(n - 56)] ^= 1 << rng.randrange(8)
+                    out.append(("multi", a, fill, bytes(q2)))
     return out
 
 
@@ -88,8 +105,22 @@ def collect(ctx: Ctx):
         sample += [v for v in vectors if v["kind"] == "mutant" and v["mut"][0] == "trunc" and bytes(v["frame"]) == f0 and (ctx.quick is False or v["mut"][1] < 48 or v["mut"][1] % 5 == 0)]
     via = []
 
+    import logging
+    lg = logging.getLogger("msmart")
+
     async def go():
-        for v in sample:
+        for vi, v in enumerate(sample):
+            dbg = vi % 2 == 1                    # every second one with the library's debug logging switched on (as `msmart-ng --debug` does)
+            if dbg:
+                logging.disable(logging.NOTSET)
+                lg.setLevel(logging.DEBUG)
+                lg.propagate = False
+                if not lg.handlers:
+                    lg.addHandler(logging.NullHandler())
+            else:
+                lg.setLevel(logging.NOTSET)
+                lg.propagate = True
+                logging.disable(logging.CRITICAL)
             l = LAN("10.0.0.1", 6444, 1)
             if len(via) % 2 == 0 and v["mut"][0] != "authentic":
                 state["reply"] = bytes(v["orig"])      # an authentic exchange first, on the same connection
@@ -111,6 +142,22 @@ def collect(ctx: Ctx):
                 l._disconnect()
 
     vloop.run(loop, go())
+    lg.setLevel(logging.NOTSET)
+    lg.propagate = True
+    logging.disable(logging.CRITICAL)
+    # ... and _Packet.decode itself under debug logging, on every truncation and a sample of the other alterations
+    logging.disable(logging.NOTSET)
+    lg.setLevel(logging.DEBUG)
+    lg.propagate = False
+    if not lg.handlers:
+        lg.addHandler(logging.NullHandler())
+    try:
+        for v in [x for x in vectors if x["kind"] == "mutant" and (x["mut"][0] == "trunc" or rng.random() < 0.05)]:
+            via.append(dict(v, res=result_of(_Packet.decode, bytes(v["q"])), via="_Packet.decode with debug logging on"))
+    finally:
+        lg.setLevel(logging.NOTSET)
+        lg.propagate = True
+        logging.disable(logging.CRITICAL)
     return vectors + via + placements(ctx, vectors)
 
 
@@ -167,7 +214,7 @@ def placements(ctx, vectors):
     vloop.run(loop, go())
 
     # the altered packet sharing a TCP segment with an authentic one, and a truncated packet left behind by an exchange
-    head = [v for v in vectors if v["kind"] == "mutant" and v["mut"][0] in ("flip", "sub") and v["mut"][1] < 6]
+    head = [v for v in vectors if v["kind"] == "mutant" and ((v["mut"][0] in ("flip", "sub") and v["mut"][1] < 6) or (v["mut"][0] == "multi" and v["mut"][1] == 4))]
     trunc = [v for v in vectors if v["kind"] == "mutant" and v["mut"][0] == "trunc" and 0 < len(v["q"]) < len(v["orig"])]
     anym = [v for v in vectors if v["kind"] == "mutant" and v["mut"][0] != "trunc" and len(v["q"]) > 0]
     n2 = ctx.pick(60, 800)
